@@ -2,7 +2,8 @@
    Tags [FULL]/[PARTIAL]/[REFUTED] are read by bin/check.
    reachable V s: s is reached from an idle Store (empty busy map) by spawning operations and interleaving
    their small steps in ANY order with ANY answers of the Disk error oracle; V selects the tree
-   (current_tree = the code as it is, repaired = with fixes F3, F4, F20). *)
+   (current_tree = repaired = /repo since the fix commits debdde2 F3, d92e32e F4, daaaf4c F22;
+   unrepaired = the code before them, about which the REFUTED statements speak). *)
 From Coq Require Import List ZArith Bool.
 From BLB Require Import C18.Model C18.Proofs C18.Proofs2.
 Import ListNotations.
@@ -16,9 +17,9 @@ Theorem lock_protocol_safe :
 Proof. intros V s R. split; [exact (reachable_lock_inv V s R) | exact (reachable_no_crash V s R)]. Qed.
 Print Assumptions lock_protocol_safe.
 
-(* [FULL] repaired tree, fail-fast clause: a request of any mode that meets a long writer is refused at once without waiting, every other conflict waits, and compatible readers share *)
+(* [FULL] current tree with fix F22, fail-fast clause: a request of any mode that meets a long writer is refused at once without waiting, every other conflict waits, and compatible readers share *)
 Theorem long_writer_fail_fast :
-  forall V busy id m, fixF20 V = true ->
+  forall V busy id m, fixF22 V = true ->
     (get id busy = Some (-2) -> try_lock_once V busy id m = (busy, false, false)) /\
     (forall st, get id busy = Some st -> st <> -2 -> (m = MR -> st <= 0) -> try_lock_once V busy id m = (busy, false, true)) /\
     (forall st, get id busy = Some st -> 0 < st -> try_lock_once V busy id MR = (set id (st + 1) busy, true, false)).
@@ -30,12 +31,12 @@ Proof.
 Qed.
 Print Assumptions long_writer_fail_fast.
 
-(* [REFUTED] current tree, finding F20: a request meeting a long writer (busy = -2) is told to WAIT, and a writer meeting exactly one reader (busy = 1) is refused at once, because the state is compared with the mode constant LONG_WRITE = 1 *)
+(* [REFUTED] unrepaired variant, finding F22: a request meeting a long writer (busy = -2) is told to WAIT, and a writer meeting exactly one reader (busy = 1) is refused at once, because the state is compared with the mode constant LONG_WRITE = 1 *)
 Theorem long_writer_fail_fast_refuted :
   exists busy id,
-    get id busy = Some (-2) /\ try_lock_once current_tree busy id MR = (busy, false, true) /\
-    try_lock_once current_tree busy id MW = (busy, false, true) /\
-    try_lock_once current_tree [(id, 1)] id MW = ([(id, 1)], false, false).
+    get id busy = Some (-2) /\ try_lock_once unrepaired busy id MR = (busy, false, true) /\
+    try_lock_once unrepaired busy id MW = (busy, false, true) /\
+    try_lock_once unrepaired [(id, 1)] id MW = ([(id, 1)], false, false).
 Proof. exists [(7, -2)], 7. vm_compute. auto. Qed.
 Print Assumptions long_writer_fail_fast_refuted.
 
@@ -87,14 +88,14 @@ Theorem read_sees_one_state :
 Proof. exact reader_stable. Qed.
 Print Assumptions read_sees_one_state.
 
-(* [REFUTED] current tree, finding F3: a conditional SetVersion whose stamp is stale returns with the lock released but its tract handle still open; opens minus closes is 1 at quiescence *)
+(* [REFUTED] unrepaired variant, finding F3: a conditional SetVersion whose stamp is stale returns with the lock released but its tract handle still open; opens minus closes is 1 at quiescence *)
 Theorem ops_balanced_refuted :
-  let s' := run_sched current_tree (g_one_tract, [new_thread op_setversion_stale]) (sched_one 12) in
+  let s' := run_sched unrepaired (g_one_tract, [new_thread op_setversion_stale]) (sched_one 12) in
   all_done s' = true /\ g_opens (fst s') - g_closes (fst s') = 1 /\ g_busy (fst s') = [].
 Proof. exact f3_witness. Qed.
 Print Assumptions ops_balanced_refuted.
 
-(* [FULL] tree with fix F3, all interleavings, every error pattern of the oracle: opens minus closes equals the number of operations currently between their Open and their closeErrTract; once every operation has returned, every successful Open has been closed and the busy map is empty *)
+(* [FULL] current tree with fix F3, all interleavings, every error pattern of the oracle: opens minus closes equals the number of operations currently between their Open and their closeErrTract; once every operation has returned, every successful Open has been closed and the busy map is empty *)
 Theorem ops_balanced :
   forall V s, fixF3 V = true -> reachable V s ->
     g_opens (fst s) - g_closes (fst s) = Z.of_nat (length (filter has_open (snd s))) /\
@@ -107,14 +108,20 @@ Proof.
 Qed.
 Print Assumptions ops_balanced.
 
-(* [REFUTED] current tree, finding F4: one failing open leaves Manager.openFiles at 1 with nothing open, so Stop never retires the workers *)
+(* [REFUTED] unrepaired variant, finding F4: one failing open leaves Manager.openFiles at 1 with nothing open, so Stop never retires the workers *)
 Theorem manager_open_count_refuted :
-  mgr_run current_tree 0 [2] = 1 /\ mgr_retires (mgr_run current_tree 0 [2]) = false.
+  mgr_run unrepaired 0 [2] = 1 /\ mgr_retires (mgr_run unrepaired 0 [2]) = false.
 Proof. vm_compute. auto. Qed.
 Print Assumptions manager_open_count_refuted.
 
-(* [FULL] tree with fix F4: after any request sequence openFiles is the start value plus successful opens minus closes, so it is back to the start value when every successful open was closed once *)
+(* [FULL] current tree with fix F4: after any request sequence openFiles is the start value plus successful opens minus closes, so it is back to the start value when every successful open was closed once *)
 Theorem manager_open_count_balanced :
   forall V rs n, fixF4 V = true -> mgr_run V n rs = n + countz is_open_ok rs - countz is_close rs.
 Proof. exact mgr_balanced. Qed.
 Print Assumptions manager_open_count_balanced.
+
+(* [FULL] the tree the FULL theorems above are instantiated at: the current tree carries all three fixes *)
+Theorem current_tree_is_repaired :
+  fixF3 current_tree = true /\ fixF22 current_tree = true /\ fixF4 current_tree = true.
+Proof. repeat split. Qed.
+Print Assumptions current_tree_is_repaired.
